@@ -163,6 +163,57 @@ fn check_get_many(ctx: &mut Ctx, b: &[u8], root: &R, paths: &[Vec<PathEl>], unch
     }
 }
 
+/// "each filled slot holding exactly what get returns": not only the raw text — the same type, the
+/// same decoded string, number and bool, for every input carrier (`&str`, `&String`, `&[u8]`,
+/// `&Bytes`, `&FastStr`) and both entry points.
+fn check_slot_views(ctx: &mut Ctx, b: &[u8], paths: &[Vec<PathEl>], all_resolve: bool) {
+    use sonic_rs::JsonValueTrait;
+    let Ok(st) = std::str::from_utf8(b) else { return };
+    let owned = st.to_string();
+    let by = bytes::Bytes::copy_from_slice(b);
+    let fs = faststr::FastStr::new(st);
+    let mut tree = PointerTree::new();
+    for p in paths {
+        tree.add_path(&to_pointer(p));
+    }
+    fn view(v: &sonic_rs::LazyValue) -> String {
+        format!("{:?}|{:?}|{:?}|{:?}|{:?}|{}", v.get_type(), v.as_str(), v.as_f64().map(|f| f.to_bits()), v.as_bool(), v.as_u64(), v.as_raw_str())
+    }
+    let singles: Vec<Option<String>> = paths.iter().map(|p| sonic_rs::get(st, &to_pointer(p)).ok().map(|v| view(&v))).collect();
+    let mut routes: Vec<(&str, sonic_rs::Result<Vec<Option<sonic_rs::LazyValue>>>)> = vec![
+        ("get_many(&str)", sonic_rs::get_many(st, &tree)),
+        ("get_many(&String)", sonic_rs::get_many(&owned, &tree)),
+        ("get_many(&Bytes)", sonic_rs::get_many(&by, &tree)),
+        ("get_many(&FastStr)", sonic_rs::get_many(&fs, &tree)),
+    ];
+    if all_resolve {
+        routes.push(("get_many_unchecked(&str)", unsafe { sonic_rs::get_many_unchecked(st, &tree) }));
+        routes.push(("get_many_unchecked(&[u8])", unsafe { sonic_rs::get_many_unchecked(b, &tree) }));
+        routes.push(("get_many_unchecked(&Bytes)", unsafe { sonic_rs::get_many_unchecked(&by, &tree) }));
+        routes.push(("get_many_unchecked(&FastStr)", unsafe { sonic_rs::get_many_unchecked(&fs, &tree) }));
+    }
+    ctx.ops(routes.len() as u64);
+    for (name, res) in &routes {
+        let Ok(slots) = res else { continue };
+        for (i, slot) in slots.iter().enumerate() {
+            if let (Some(lv), Some(Some(want))) = (slot, singles.get(i)) {
+                let got = view(lv);
+                if &got != want {
+                    ctx.fail(&format!("slot-view-vs-get:{}", name), format!("slot {} of {}: {:?}, get gives {:?}", i, fmt_paths(paths), crate::core::truncate(&got, 160), crate::core::truncate(want, 160)));
+                    return;
+                }
+                // and as an owned value
+                let o = sonic_rs::OwnedLazyValue::from(lv.clone());
+                if o.as_str().map(|s| s.to_string()) != lv.as_str().map(|s| s.to_string()) {
+                    ctx.fail(&format!("slot-owned-view:{}", name), format!("slot {} of {}: OwnedLazyValue::from(slot).as_str() = {:?}", i, fmt_paths(paths), o.as_str()));
+                    return;
+                }
+            }
+        }
+    }
+    ctx.class("set:slot-views");
+}
+
 // ---- get_by_schema
 
 fn to_sj(r: &R, b: &[u8]) -> serde_json::Value {
@@ -492,6 +543,8 @@ impl Check for C11 {
             check_get_many(ctx, b, &d.root, &ps, false);
             check_get_many(ctx, b, &d.root, &ps, true);
             check_grown_tree(ctx, b, &ps, r.next());
+            let all = ps.iter().all(|p| lookup(&d.root, p).is_ok());
+            check_slot_views(ctx, b, &ps, all);
         }
         if matches!(d.root.k, K::Obj(_)) {
             check_schema(ctx, b, &d.root, r.next());
@@ -500,6 +553,6 @@ impl Check for C11 {
         ctx.sample("doc");
     }
     fn required_classes(&self, _b: &str, _t: Tier) -> Vec<&'static str> {
-        vec!["set:checked", "set:all-resolve", "set:some-missing", "set:repeated-path", "schema:checked", "set:deep-member", "set:wide", "set:grown-tree"]
+        vec!["set:checked", "set:all-resolve", "set:some-missing", "set:repeated-path", "schema:checked", "set:deep-member", "set:wide", "set:grown-tree", "set:slot-views"]
     }
 }
